@@ -123,12 +123,19 @@ func uniquify(f *File, auto AutoCfg) {
 			}
 		case "raw":
 			lines := strings.Split(t.Raw.Text, "\n")
+			crlf := next()%3 == 0 // some raw blocks use CRLF line endings
 			for i, l := range lines {
 				if strings.TrimSpace(l) != "" {
 					lines[i] = fmt.Sprintf("\t.rawdata %d", next())
 				}
+				if crlf && i < len(lines)-1 {
+					lines[i] += "\r"
+				}
 			}
 			t.Raw.Text = strings.Join(lines, "\n")
+			if next()%9 == 0 {
+				t.Raw.Text = "" // an empty raw block
+			}
 		case "mapscripts":
 			for _, e := range t.Map.Entries {
 				doBlock(e.Body)
@@ -331,7 +338,7 @@ func checkC16(c *C16Case) *Violation {
 							if _, seen := hoistOwnerCmd[l]; !seen {
 								hoistOwnerCmd[l] = cmd.Span
 								if ar.Text != nil {
-									hoistOwnerLit[l] = ar.Text.Span
+									hoistOwnerLit[l] = ar.Text.LitSpan
 								}
 							}
 						}
@@ -352,14 +359,17 @@ func checkC16(c *C16Case) *Violation {
 			if l.Marker < 1 || l.Marker > nLines {
 				return viol("marker-range", "%s", detail("marker %q: line %d is not in 1..%d", l.Raw, l.Marker, nLines))
 			}
+			var nx ALine
+			blankRaw := false // a blank (raw) line sits between the marker and the next non-blank line (or the end)
 			if i+1 >= len(a.Lines) {
-				return viol("dangling-marker", "%s", detail("marker %q is the last line", l.Raw))
+				blankRaw = true
+			} else {
+				nx = a.Lines[i+1]
+				blankRaw = nx.BlankBefore
 			}
-			nx := a.Lines[i+1]
 			// (d) identify the construct that follows
 			span, kind := 0, ""
 			exact := 0
-			blankRaw := nx.BlankBefore // a blank (raw) line sits between the marker and the next non-blank line
 			switch {
 			case blankRaw:
 			case nx.IsMark:
@@ -514,7 +524,7 @@ func TestC16_Regress(t *testing.T) { runRegress(t, "C16") }
 
 func TestC16_Markers(t *testing.T) {
 	st := stat("C16")
-	st.SetRule("whole files (scripts with control flow, AutoVar conditions and switches, inline text and moves(), texts, movements, marts, mapscripts with inline scripts and tables, multi-line raw blocks) in which every construct has content of its own (unique command names / arguments, operands, case values, steps, items, texts, raw lines), printed under a random layout (constructs spread over lines, blank lines, CRLF, # and // comments); input path: several shapes incl. backslashes and empty. oracle (optimize on and off): stripping the marker lines of the -lm output gives the -lm=false output; no markers without a path; every marker names the path and a line in 1..N; the marker before a command, label, condition operand (also of AutoVar leaves), switch operand, case, mart item, movement step, map-script entry / table row, text or moves() block names a line inside that construct's source span; raw-line markers name exactly the line of the raw literal + index. non-trivial = >= 5 kinds of constructs identified, many line breaks and a comment; distinct by source text")
+	st.SetRule("whole files (scripts with control flow, AutoVar conditions and switches, inline text and moves(), texts, movements, marts, mapscripts with inline scripts and tables, multi-line raw blocks incl. CRLF and empty ones) in which every construct has content of its own (unique command names / arguments, operands, case values, steps, items, texts, raw lines), printed under a random layout (constructs spread over lines, blank lines, CRLF, # and // comments); input path: several shapes incl. backslashes and empty. oracle (optimize on and off): stripping the marker lines of the -lm output gives the -lm=false output; no markers without a path; every marker names the path and a line in 1..N; the marker before a command, label, condition operand (also of AutoVar leaves), switch operand, case, mart item, movement step, map-script entry / table row, text statement or moves() block names a line inside that construct's source span, for an inline text a line of its string literal; raw-line markers name exactly the line of the raw literal + index. non-trivial = >= 5 kinds of constructs identified, many line breaks and a comment; distinct by source text")
 	st.Assume("'the line on which the construct was written' = any line of the construct's source span", "constructs whose output line is not unique (goto, end, return, step_end, ITEM_NONE) are not attributed")
 	runRapid(t, "C16", "TestC16_Markers", genC16, checkC16, c16Src)
 }
